@@ -27,10 +27,10 @@ type resCfg struct {
 func (c *resCfg) Name() string { return c.id }
 
 const (
-	rsAdd uint8 = 1 + iota // A=type, B=pointer index, C=path (0 Resources.Add, 1 generic.Resource.Add, 2 ecs.AddResource)
-	rsRemove               // A=type, C=path (0 Resources.Remove, 1 generic.Resource.Remove)
-	rsEntity               // create or remove an entity
-	rsQuery                // open / close a query
+	rsAdd    uint8 = 1 + iota // A=type, B=pointer index, C=path (0 Resources.Add, 1 generic.Resource.Add, 2 ecs.AddResource)
+	rsRemove                  // A=type, C=path (0 Resources.Remove, 1 generic.Resource.Remove)
+	rsEntity                  // create or remove an entity
+	rsQuery                   // open / close a query
 	rsReset
 	rsLate // first use of a resource type (registration + Add/Get/Remove), possibly while a query is open
 )
